@@ -478,3 +478,203 @@ def run_refuse(st):
         except Exception as e:
             res.append({"what": what, "kind": "-", "arg": "-", "fmt": "-", "ot": "-", "out": outcome_of_exception(e), "n": 0, "expect": len(st["vals"])})
     return {"vals": st["vals"], "res": res}
+
+
+# ------------------------------------------------------------------ C20: objectives
+def _rat(f, maxden):
+    """exact rational num/den (den <= maxden) whose float is f, else (0, 0)"""
+    try:
+        if isinstance(f, bool):
+            return 0, 0
+        if isinstance(f, (int, np.integer)):
+            return int(f), 1
+        ff = float(f)
+        if math.isnan(ff) or math.isinf(ff):
+            return 0, 0
+        fr = Fraction(ff)
+        if fr.denominator == 1:
+            return int(fr), 1
+        c = fr.limit_denominator(maxden)
+        if float(c) == ff and abs(c.numerator) < 2 ** 31:
+            return c.numerator, c.denominator
+        return 0, 0
+    except Exception:
+        return 0, 0
+
+
+def run_obj(st):
+    """st: {s: [...], wlist: [[w..],..]} -> evaluations of every objective on s as list / tuple / ndarray, slow and (when sorted) fast path"""
+    s = st["s"]
+    n = len(s)
+    issorted = all(s[i] <= s[i + 1] for i in range(n - 1))
+    conts = {"list": list, "tuple": tuple, "ndarray": lambda x: np.array(x), "floatarray": lambda x: np.array(x, dtype=float)}
+    res = []
+    for cname, mk in conts.items():
+        for o in ("diff", "maxsum", "minsum", "klargest", "ksmallest"):
+            for kp in (range(1, n + 3) if o in ("klargest", "ksmallest") else [0]):
+                for flag in ((0, 1) if issorted else (0,)):
+                    ev = {"o": o, "kp": kp, "w": [], "cont": cname, "sorted": flag, "out": "ret", "num": 0, "den": 0}
+                    try:
+                        v = objective(o, kp).value_to_minimize(mk(s), are_sums_in_ascending_order=bool(flag)) if flag else objective(o, kp).value_to_minimize(mk(s))
+                        ev["num"], ev["den"] = _rat(v, 1)
+                    except Exception as e:
+                        ev["out"] = outcome_of_exception(e)
+                    res.append(ev)
+        for w in st.get("wlist", []):
+            ev = {"o": "wminsum", "kp": 0, "w": list(w), "cont": cname, "sorted": 0, "out": "ret", "num": 0, "den": 0}
+            try:
+                v = obj.MaximizeSmallestWeightedSum(list(w)).value_to_minimize(mk(s))
+                ev["num"], ev["den"] = _rat(v, max(w))
+            except Exception as e:
+                ev["out"] = outcome_of_exception(e)
+            res.append(ev)
+    return {"s": s, "res": res}
+
+
+# ------------------------------------------------------------------ C13: bounds and enumerators (documented extension points)
+from prtpy.inclusion_exclusion_tree import InExclusionBinTree
+
+
+def run_bound(st):
+    """st: {s (ascending), R} -> lower_bound of the three objectives: sorted flag on/off, list/tuple/array, and permuted input with flag off"""
+    s, R = st["s"], st["R"]
+    res = []
+    perms = [list(s)]
+    if len(s) > 1:
+        perms.append(list(reversed(s)))
+        perms.append(s[1:] + s[:1])
+    conts = {"list": list, "tuple": tuple, "ndarray": lambda x: np.array(x, dtype=float)}
+    for o in ("minsum", "maxsum", "diff"):
+        ob = objective(o)
+        for cname, mk in conts.items():
+            for flag, p in [(1, perms[0])] + [(0, p) for p in perms]:
+                ev = {"o": o, "flag": flag, "cont": cname, "p": p, "out": "ret", "v": 0, "exact": True}
+                try:
+                    v = ob.lower_bound(mk(p), R, are_sums_in_ascending_order=bool(flag))
+                    iv = exact_int(v)
+                    if iv is None:
+                        ev["exact"] = False
+                    else:
+                        ev["v"] = iv
+                except Exception as e:
+                    ev["out"] = outcome_of_exception(e)
+                res.append(ev)
+    return {"kind": "bound", "s": s, "R": R, "res": res}
+
+
+def run_tree(st):
+    """st: {vals, lb (in halves), ub (in halves)} -> yields of the inclusion/exclusion tree over items = ids"""
+    vals = st["vals"]
+    ids = list(range(1, len(vals) + 1))
+    t = {"kind": "tree", "vals": vals, "lb2": st["lb"], "ub2": st["ub"], "out": "ret", "yields": []}
+    try:
+        tree = InExclusionBinTree(items=ids, valueof=lambda i: vals[i - 1], lower_bound=st["lb"] / 2, upper_bound=st["ub"] / 2)
+        for y in tree.generate_tree():
+            t["yields"].append([int(i) for i in y])
+            if len(t["yields"]) > 4096:
+                t["out"] = "bad"
+                break
+    except Exception as e:
+        t["out"] = outcome_of_exception(e)
+    return t
+
+
+def run_comb(st):
+    c1, c2 = st["c1"], st["c2"]
+    s1 = [sum(b) for b in c1]; s2 = [sum(b) for b in c2]
+    res = []
+    ev = {"mgr": "sums", "out": "ret", "ys": []}
+    try:
+        b = prtpy.BinnerKeepingSums()
+        for y in b.all_combinations(np.array(s1, dtype=float), np.array(s2, dtype=float)):
+            sv, ex = norm_sums(y)
+            if not ex:
+                ev["out"] = "bad"
+            ev["ys"].append({"s": sv, "c": []})
+    except Exception as e:
+        ev["out"] = outcome_of_exception(e)
+    res.append(ev)
+    ev = {"mgr": "contents", "out": "ret", "ys": []}
+    try:
+        b = prtpy.BinnerKeepingContents()
+        a1 = (np.array(s1, dtype=float), [list(x) for x in c1]); a2 = (np.array(s2, dtype=float), [list(x) for x in c2])
+        for y in b.all_combinations(a1, a2):
+            sv, ex = norm_sums(y[0])
+            if not ex:
+                ev["out"] = "bad"
+            ev["ys"].append({"s": sv, "c": [[int(v) for v in bn] for bn in y[1]]})
+        # arguments documented as inputs must be untouched
+        if [list(x) for x in a1[1]] != [list(x) for x in c1] or [list(x) for x in a2[1]] != [list(x) for x in c2] or list(a1[0]) != s1 or list(a2[0]) != s2:
+            ev["out"] = "bad:arguments_modified"
+    except Exception as e:
+        ev["out"] = outcome_of_exception(e)
+    res.append(ev)
+    return {"kind": "comb", "c1": c1, "c2": c2, "res": res}
+
+
+# ------------------------------------------------------------------ C16: bins-manager histories
+_ITEMVAL = lambda it: 0 if it >= 100 else it
+
+
+def _proj(binner, arr, contents):
+    sums = binner.sums(arr)
+    nb = binner.numbins(arr)
+    outl = []
+    for i in range(nb):
+        s = exact_int(sums[i])
+        c = [int(x) for x in arr[1][i]] if contents else []
+        if contents and binner.numitems(arr, i) != len(c):
+            s = None
+        outl.append({"s": -999999 if s is None else s, "c": c})
+    return outl
+
+
+def run_binner_hist(st):
+    """st: {ops: [{op,a,b,i,j,n,it}], mgr, ns}: replays a TLC-generated history on a real bins-manager, recording the projected state of every
+    live array after every operation and, for handed-over arguments, what the old handle shows right after the call"""
+    contents = st["mgr"] == "contents"
+    B = (prtpy.BinnerKeepingContents if contents else prtpy.BinnerKeepingSums)(_ITEMVAL)
+    ns = st.get("ns", 3)
+    live = {}
+    evs = []
+    for op in st["ops"]:
+        ev = dict(op); ev["out"] = "ret"; ev["args"] = []
+        a, b = op["a"], op["b"]
+        try:
+            o = op["op"]
+            if o == "new":
+                live[a] = B.new_bins(op["n"])
+            elif o == "add":
+                ret = B.add_item_to_bin(live[a], op["it"], op["i"] - 1)
+                if ret is not live[a]:
+                    live[a] = ret     # documented: returns the bins after the addition
+            elif o == "copy":
+                live[b] = B.copy_bins(live[a])
+            elif o == "sort":
+                B.sort_by_ascending_sum(live[a])
+            elif o == "addempty":
+                old = live[a]
+                live[a] = B.add_empty_bins(old, op["n"])
+                ev["args"] = [{"slot": a, "bins": _proj(B, old, contents)}]
+            elif o == "remove":
+                old = live[a]
+                live[a] = B.remove_bins(old, op["n"])
+                ev["args"] = [{"slot": a, "bins": _proj(B, old, contents)}]
+            elif o == "concat":
+                o1, o2 = live[a], live[b]
+                live[a] = B.concatenate_bins(o1, o2)
+                del live[b]
+                ev["args"] = [{"slot": a, "bins": _proj(B, o1, contents)}, {"slot": b, "bins": _proj(B, o2, contents)}]
+            elif o == "combine":
+                B.combine_bins(live[a], op["i"] - 1, live[b], op["j"] - 1)
+        except Exception as e:
+            ev["out"] = outcome_of_exception(e)
+        try:
+            ev["st"] = [{"live": 1 if s in live else 0, "bins": _proj(B, live[s], contents) if s in live else []} for s in range(1, ns + 1)]
+        except Exception as e:
+            ev["out"] = "bad:projection:" + type(e).__name__
+            ev["st"] = [{"live": 0, "bins": []} for s in range(1, ns + 1)]
+        evs.append(ev)
+        if ev["out"] != "ret":
+            break
+    return {"mgr": st["mgr"], "ns": ns, "ops": evs}
